@@ -8,7 +8,7 @@ semantics runs the block from `σ` to `σ'` with outcome `normal`, then the mach
 state `s` related to `σ` by `Sim.Sim` with the block's code at its program counter, reaches in
 finitely many steps a state `s'` related to `σ'`, with the program counter just past the code.
 
-`Sim.Sim stk σ s` (`Proofs/Sim.lean`, `SimU` with no pending `printf` values) says: both are
+`Sim.Sim K stk σ s` (`Proofs/Sim.lean`, `SimU` with no pending `printf` values) says: both are
 running; `s` has frame stack `stk`, all loop frames (at top level `stk = []`), an empty evaluation
 stack and no pending output; `σ` is at top level (no routine active); and globals, constants
 (macros), lights, the trace of events (device commands, delays, output), default colour, matrix,
@@ -60,17 +60,17 @@ outside them; concrete scripts are at the end of this file):
 namespace Bardolph
 open Vm VmSteps Sem Gen Sim
 
-variable {img : Image}
+variable {img : Image} {K : Ctx}
 
 /-! ## every statement form of the fragment -/
 
-theorem Sim.stmts_zero : StmtsGoal img 0 := by
+theorem Sim.stmts_zero : StmtsGoal img K 0 := by
   intro st _ σ σ' o s pc exit stk _ _ _ h ho
   simp only [execStmt, Prod.mk.injEq] at h
   rcases ho with rfl | rfl <;> simp at h
 
-theorem Sim.stmts_step (f : Nat) (ihB : BlockGoal img f) (ihOs : OperandsGoal img f)
-    (ihL : LoopGoal img f) : StmtsGoal img (f + 1) := by
+theorem Sim.stmts_step (f : Nat) (ihB : BlockGoal img K f) (ihOs : OperandsGoal img K f)
+    (ihL : LoopGoal img K f) : StmtsGoal img K (f + 1) := by
   intro st hst
   cases st with
   | setReg r v => exact stmt_setReg f r v hst.1 hst.2
@@ -97,26 +97,28 @@ theorem Sim.stmts_step (f : Nat) (ihB : BlockGoal img f) (ihOs : OperandsGoal im
   | printf fmt as => exact stmt_printf f fmt as hst.1 hst.2.1 hst.2.2
   | stage rows cols cf => exact stmt_stage f rows cols cf hst.1 hst.2
 
-/-- all the simulation statements at one fuel level -/
+/-- all the simulation statements at one fuel level, in every context -/
 structure Sim.AllGoals (img : Image) (f : Nat) : Prop where
-  stmts : StmtsGoal img f
-  block : BlockGoal img f
-  operand : OperandGoal img f
-  operands : OperandsGoal img f
-  loop : LoopGoal img f
-  whileI : WhileIter img f
-  countI : CountIter img f
+  stmts : ∀ K, StmtsGoal img K f
+  block : ∀ K, BlockGoal img K f
+  operand : ∀ K, OperandGoal img K f
+  operands : ∀ K, OperandsGoal img K f
+  loop : ∀ K, LoopGoal img K f
+  whileI : ∀ K, WhileIter img K f
+  countI : ∀ K, CountIter img K f
 
 theorem Sim.allGoals (img : Image) : ∀ f, AllGoals img f := by
   intro f
   induction f with
   | zero =>
-    exact ⟨stmts_zero, block_zero, operand_zero, operands_zero, loop_zero, while_zero, count_zero⟩
+    exact ⟨fun _ => stmts_zero, fun _ => block_zero, fun _ => operand_zero, fun _ => operands_zero,
+      fun _ => loop_zero, fun _ => while_zero, fun _ => count_zero⟩
   | succ f ih =>
-    exact ⟨stmts_step f ih.block ih.operands ih.loop, block_step f ih.stmts ih.block,
-      operand_step f ih.block, operands_step f ih.operand ih.operands,
-      loop_step f ih.whileI ih.countI, while_step f ih.block ih.whileI,
-      count_step f ih.block ih.countI⟩
+    exact ⟨fun K => stmts_step f (ih.block K) (ih.operands K) (ih.loop K),
+      fun K => block_step f (ih.stmts K) (ih.block K),
+      fun K => operand_step f (ih.block K), fun K => operands_step f (ih.operand K) (ih.operands K),
+      fun K => loop_step f (ih.whileI K) (ih.countI K), fun K => while_step f (ih.block K) (ih.whileI K),
+      fun K => count_step f (ih.block K) (ih.countI K)⟩
 
 /-! ## the theorems -/
 
@@ -124,25 +126,25 @@ theorem Sim.allGoals (img : Image) : ∀ f, AllGoals img f := by
 any number of enclosing loops `stk`, `break`s resolved to jump to `exit`): if the source says the
 block ends normally, the machine arrives just past the code; if the source says `break`, the
 machine arrives at `exit`; in both cases in a state related to the source-level state. -/
-theorem C01_gen_sim_block (img : Image) (b : Block) (hb : FragBlock b) (f : Nat) (σ σ' : S)
+theorem C01_gen_sim_block (img : Image) (K : Ctx) (b : Block) (hb : FragBlock b) (f : Nat) (σ σ' : S)
     (o : Outcome) (s : State) (pc exit : Nat) (stk : List Frame)
-    (hsim : Sim stk σ s) (hpc : s.pc = (pc : Int))
+    (hsim : Sim K stk σ s) (hpc : s.pc = (pc : Int))
     (hc : CodeAt img pc (resolve (genBlock b) pc exit))
     (h : execBlock f b σ = (o, σ')) (ho : o = .normal ∨ o = .brk) :
     ∃ k, (run img k s).pc = ((Target pc (genBlock b).length exit o : Nat) : Int) ∧
-      Sim stk σ' (run img k s) := by
-  obtain ⟨k, hk⟩ := (Sim.allGoals img f).block b hb σ σ' o s pc exit stk hsim hpc hc h ho
+      Sim K stk σ' (run img k s) := by
+  obtain ⟨k, hk⟩ := (Sim.allGoals img f).block K b hb σ σ' o s pc exit stk hsim hpc hc h ho
   exact ⟨k, hk.1, hk.2⟩
 
 /-- the same for a single statement -/
-theorem C01_gen_sim_stmt (img : Image) (st : Stmt) (hst : FragStmt st) (f : Nat) (σ σ' : S)
+theorem C01_gen_sim_stmt (img : Image) (K : Ctx) (st : Stmt) (hst : FragStmt st) (f : Nat) (σ σ' : S)
     (o : Outcome) (s : State) (pc exit : Nat) (stk : List Frame)
-    (hsim : Sim stk σ s) (hpc : s.pc = (pc : Int))
+    (hsim : Sim K stk σ s) (hpc : s.pc = (pc : Int))
     (hc : CodeAt img pc (resolve (genStmt st) pc exit))
     (h : execStmt f st σ = (o, σ')) (ho : o = .normal ∨ o = .brk) :
     ∃ k, (run img k s).pc = ((Target pc (genStmt st).length exit o : Nat) : Int) ∧
-      Sim stk σ' (run img k s) := by
-  obtain ⟨k, hk⟩ := (Sim.allGoals img f).stmts st hst σ σ' o s pc exit stk hsim hpc hc h ho
+      Sim K stk σ' (run img k s) := by
+  obtain ⟨k, hk⟩ := (Sim.allGoals img f).stmts K st hst σ σ' o s pc exit stk hsim hpc hc h ho
   exact ⟨k, hk.1, hk.2⟩
 
 /-- **gen_sim_partial.**  For every statement list `b` of the fragment whose code `code` has no
@@ -156,12 +158,12 @@ says, in the same order, and leaves every variable, macro and register (but the 
 `result`) as the source says. -/
 theorem C01_gen_sim_partial (img : Image) (b : Block) (hb : FragBlock b) (code : List Instr)
     (hcode : Gen.genProgram b = some code) (f : Nat) (σ σ' : S) (s : State) (pc : Nat)
-    (hsim : Sim [] σ s) (hpc : s.pc = (pc : Int)) (hc : CodeAt img pc code)
+    (hsim : Sim none [] σ s) (hpc : s.pc = (pc : Int)) (hc : CodeAt img pc code)
     (h : execBlock f b σ = (.normal, σ')) :
-    ∃ k, (run img k s).pc = ((pc + code.length : Nat) : Int) ∧ Sim [] σ' (run img k s) := by
+    ∃ k, (run img k s).pc = ((pc + code.length : Nat) : Int) ∧ Sim none [] σ' (run img k s) := by
   have hres : resolve (genBlock b) pc (0 : Nat) = code := resolve_of_mapM _ _ hcode pc _
   have hlen : code.length = (genBlock b).length := by rw [← hres, resolve_length]
-  obtain ⟨k, hk1, hk2⟩ := C01_gen_sim_block img b hb f σ σ' .normal s pc 0 [] hsim hpc
+  obtain ⟨k, hk1, hk2⟩ := C01_gen_sim_block img none b hb f σ σ' .normal s pc 0 [] hsim hpc
     (by rw [hres]; exact hc) h (Or.inl rfl)
   exact ⟨k, by rw [hk1, hlen]; rfl, hk2⟩
 
@@ -171,7 +173,7 @@ events per dynamic execution of a statement, in program order — and so are the
 macros, lights and all registers other than `result`. -/
 theorem C01_once_each_in_order (img : Image) (b : Block) (hb : FragBlock b) (code : List Instr)
     (hcode : Gen.genProgram b = some code) (f : Nat) (σ σ' : S) (s : State) (pc : Nat)
-    (hsim : Sim [] σ s) (hpc : s.pc = (pc : Int)) (hc : CodeAt img pc code)
+    (hsim : Sim none [] σ s) (hpc : s.pc = (pc : Int)) (hc : CodeAt img pc code)
     (h : execBlock f b σ = (.normal, σ')) :
     ∃ k, (run img k s).trace = σ'.vm.trace ∧ (run img k s).globals = σ'.vm.globals ∧
       (run img k s).constants = σ'.vm.constants ∧ (run img k s).lights = σ'.vm.lights ∧
@@ -183,7 +185,7 @@ theorem C01_once_each_in_order (img : Image) (b : Block) (hb : FragBlock b) (cod
 
 /-- the initial states of `Sem.run` and of the machine are related -/
 theorem Sim.init (lights : List Light) (rts : List (String × Sem.Routine)) :
-    Sim [] { vm := Vm.init lights, routines := rts } (Vm.init lights) :=
+    Sim none [] { vm := Vm.init lights, routines := rts } (Vm.init lights) :=
   ⟨rfl, rfl, LoopsOnly.nil, rfl, rfl, rfl, rfl, rfl, rfl, rfl, rfl, rfl, rfl, rfl, fun _ _ => rfl⟩
 
 /-- **whole scripts.**  A script of the fragment, compiled by `Gen.genProgram` and placed at
